@@ -4,6 +4,7 @@ from typing import List, Union, Dict, Optional
 
 from pddl_plus_parser.lisp_parsers.parsing_utils import (
     parse_untyped_predicate,
+    validate_predicate_usage,
     BINARY_OPERATORS,
     EQUALITY_OPERATOR,
     COMPARISON_OPS,
@@ -62,6 +63,7 @@ class PreconditionsParser:
                 continue
 
             if precondition_node[0] in domain_predicates:
+                validate_predicate_usage(precondition_node, domain_predicates)
                 precondition_root.add_condition(
                     parse_untyped_predicate(
                         precondition_node,
@@ -84,6 +86,7 @@ class PreconditionsParser:
                     continue
 
                 # no support on not for compound logical expressions
+                validate_predicate_usage(inner_node, domain_predicates)
                 precondition_root.add_condition(
                     parse_untyped_predicate(
                         inner_node,
@@ -160,6 +163,8 @@ class PreconditionsParser:
 
             else:
                 self.logger.error(f"Unknown precondition node: {precondition_node}")
-                return None
+                raise SyntaxError(
+                    f"Unknown or unsupported precondition node: {precondition_node}"
+                )
 
         return precondition_root
